@@ -146,16 +146,25 @@ int64_t vm_char_to_upper(int64_t c) {
     return c;
 }
 
+/* Length of the UTF-8 sequence starting at s (s[0] != 0), never stepping
+ * over the terminator when the string ends inside a multi-byte sequence. */
+static size_t utf8_seq_len(const unsigned char *s) {
+    size_t n = 1;
+    if ((*s & 0xE0) == 0xC0) n = 2;
+    else if ((*s & 0xF0) == 0xE0) n = 3;
+    else if ((*s & 0xF8) == 0xF0) n = 4;
+    for (size_t i = 1; i < n; i++) {
+        if (s[i] == '\0') return i;
+    }
+    return n;
+}
+
 int64_t vm_bstr_utf8_length(const char *str) {
     if (!str) return 0;
     int64_t count = 0;
     const unsigned char *s = (const unsigned char *)str;
     while (*s) {
-        if ((*s & 0x80) == 0) s += 1;
-        else if ((*s & 0xE0) == 0xC0) s += 2;
-        else if ((*s & 0xF0) == 0xE0) s += 3;
-        else if ((*s & 0xF8) == 0xF0) s += 4;
-        else s += 1;
+        s += utf8_seq_len(s);
         count++;
     }
     return count;
@@ -166,14 +175,14 @@ int64_t vm_bstr_utf8_char_at(const char *str, int64_t char_index) {
     const unsigned char *s = (const unsigned char *)str;
     int64_t idx = 0;
     while (*s && idx < char_index) {
-        if ((*s & 0x80) == 0) s += 1;
-        else if ((*s & 0xE0) == 0xC0) s += 2;
-        else if ((*s & 0xF0) == 0xE0) s += 3;
-        else if ((*s & 0xF8) == 0xF0) s += 4;
-        else s += 1;
+        s += utf8_seq_len(s);
         idx++;
     }
     if (!*s) return -1;
+    /* A sequence cut short by the end of the string has no code point */
+    if ((*s & 0xE0) == 0xC0 && utf8_seq_len(s) < 2) return -1;
+    if ((*s & 0xF0) == 0xE0 && utf8_seq_len(s) < 3) return -1;
+    if ((*s & 0xF8) == 0xF0 && utf8_seq_len(s) < 4) return -1;
     /* Decode UTF-8 codepoint */
     if ((*s & 0x80) == 0) return *s;
     if ((*s & 0xE0) == 0xC0) return ((s[0] & 0x1F) << 6) | (s[1] & 0x3F);
